@@ -265,6 +265,10 @@ func parseWireWS(b []byte) Wire {
 		tok = xml.CopyToken(tok)
 		switch t := tok.(type) {
 		case xml.StartElement:
+			if a := dupAttr(t); a != "" {
+				w.Err, w.ErrOff = fmt.Errorf("attribute %s appears twice in <%s>", a, t.Name.Local), off
+				return w
+			}
 			depth++
 			if depth == 1 {
 				cur = &Elem{Start: t, Off: off}
@@ -330,6 +334,11 @@ func ParseWire(b []byte) Wire {
 		tok = xml.CopyToken(tok)
 		switch t := tok.(type) {
 		case xml.StartElement:
+			if a := dupAttr(t); a != "" {
+				// encoding/xml does not enforce the uniqueness of attribute names, well-formedness does
+				w.Err, w.ErrOff = fmt.Errorf("attribute %s appears twice in <%s>", a, t.Name.Local), off
+				return w
+			}
 			depth++
 			if depth == 1 {
 				st := t
@@ -365,4 +374,19 @@ func ParseWire(b []byte) Wire {
 			}
 		}
 	}
+}
+
+// dupAttr returns the name of an attribute that occurs twice in a start tag ("" if none).
+func dupAttr(t xml.StartElement) string {
+	for i, a := range t.Attr {
+		for _, b := range t.Attr[:i] {
+			if a.Name == b.Name {
+				if a.Name.Space != "" {
+					return a.Name.Space + ":" + a.Name.Local
+				}
+				return a.Name.Local
+			}
+		}
+	}
+	return ""
 }
